@@ -15,6 +15,7 @@ TExpr == Is("Expr") /\ Dom(E.e, Empty) /\ E.got.k = "int" /\ E.got.v = Eval(E.e,
 TDefOption == Is("DefOption") /\ DefOption(E.n, E.e) /\ Adv
 TDefOptionStr == Is("DefOptionStr") /\ DefOptionStr(E.n, E.v) /\ Adv
 TDefConst == Is("DefConst") /\ DefConst(E.n, E.e) /\ Adv
+TDefKeyblob == Is("DefKeyblob") /\ DefKeyblob(E.id, E.lo, E.hi, E.key, E.ctr) /\ Adv
 TBeginSection == Is("BeginSection") /\ BeginSection(E.id) /\ Adv
 TStmt == Is("Stmt") /\ Stmt(E.st) /\ E.obs = Expected(E.st, env) /\ Adv
 TRefuse == Is("Refuse") /\ Refuse(E.kind) /\ E.obs.t = "spsdk-error" /\ Adv
@@ -24,7 +25,7 @@ TEnd == /\ Is("End") /\ phase = "section"
         /\ E.counts = [i \in 1..Len(secs) |-> Len(secs[i].cmds)]
         /\ UNCHANGED pvars /\ Adv
 TEndRefused == Is("EndRefused") /\ phase = "refused" /\ UNCHANGED pvars /\ Adv
-TNext == TExpr \/ TDefOption \/ TDefOptionStr \/ TDefConst \/ TBeginSection \/ TStmt \/ TRefuse \/ TEnd \/ TEndRefused
+TNext == TExpr \/ TDefOption \/ TDefOptionStr \/ TDefConst \/ TDefKeyblob \/ TBeginSection \/ TStmt \/ TRefuse \/ TEnd \/ TEndRefused
 Constr == IF TLCGet(tid) < l THEN TLCSet(tid, l) ELSE TRUE
 Post == \A i \in 1..Len(Traces) :
           \/ TLCGet(i) - 1 = Len(Traces[i].ev)
